@@ -316,6 +316,75 @@ Theorem eam_plus_answers_needs_d8 :
 Proof. exact UpscaleNoErr.eam_plus_answers_needs_d8. Qed.
 Print Assumptions eam_plus_answers_needs_d8.
 
+(* THE ITERATIVE METHOD ihu (model theories/Ihu.v: eam_plus, then up to five rounds of outlet relocation, connection check,
+   river-length optimisation and error minimisation).  Invariants of the three arrays the stages modify, each preserved by
+   every stage, give for the RESULT of up_ihu, under the hypotheses of the first stage (fine links join 8-neighbouring pixels,
+   the effective-area map contains the cell crosses, loop-free closed fine network):
+   - every coarse link joins a cell with itself or one of its 8 neighbours (up_ihu_links_d8);
+   - every reported outlet pixel is a valid fine pixel (up_ihu_outlets_valid_topo) and the outlet pixels of different coarse cells
+     differ (up_ihu_outlets_distinct; no hypothesis beyond the loop-free fine network);
+   - when the upstream area is positive on the network and no error value is stored: a coarse cell is valid exactly where an
+     outlet pixel is reported (up_ihu_valid_iff_outlet), and the coarse cell that CONTAINS an outlet pixel is valid
+     (up_ihu_outlet_cell_valid: for ihu a pixel may leave its own cell); without positive areas the latter is false
+     (up_ihu_outlet_cell_valid_refuted).  Loop-freeness of what FlwdirRaster.upscale returns is the isvalid gate (C03). *)
+From PF Require Import Ihu IhuD8 IhuOut IhuValid IhuDistinct.
+Theorem up_ihu_links_d8 : forall sds sq upa subnrow subncol cs ea, 0 < cs -> 0 < subncol -> length sds = subnrow * subncol ->
+  topo sds sq -> complete sds sq ->
+  (forall t, t < length sds -> sd sds t < length sds -> in_d8 t (sd sds t) subncol = true) ->
+  check_cross sds ea subncol cs = true ->
+  let '(cds, _, (nrow, ncol)) := up_ihu sds upa subnrow subncol cs ea in
+  forall idx0, idx0 < nrow * ncol -> nth idx0 cds (nrow * ncol) < nrow * ncol -> in_d8 idx0 (nth idx0 cds (nrow * ncol)) ncol = true.
+Proof. exact IhuD8.up_ihu_links_d8. Qed.
+Print Assumptions up_ihu_links_d8.
+Theorem up_ihu_outlets_valid_topo : forall sds sq upa subnrow subncol cs ea, topo sds sq -> complete sds sq ->
+  let '(_, out, (_, _)) := up_ihu sds upa subnrow subncol cs ea in
+  forall idx0, nth idx0 out (length sds) < length sds -> sd sds (nth idx0 out (length sds)) < length sds.
+Proof. exact IhuOut.up_ihu_outlets_valid_topo. Qed.
+Print Assumptions up_ihu_outlets_valid_topo.
+Theorem up_ihu_outlets_distinct : forall sds sq upa subnrow subncol cs ea, 0 < cs -> 0 < subncol -> length sds = subnrow * subncol ->
+  topo sds sq -> complete sds sq ->
+  let '(_, out, (nrow, ncol)) := up_ihu sds upa subnrow subncol cs ea in
+  forall idx idx', idx < nrow * ncol -> idx' < nrow * ncol -> idx <> idx' -> nth idx out (length sds) < length sds ->
+  nth idx out (length sds) <> nth idx' out (length sds).
+Proof. exact IhuDistinct.up_ihu_outlets_distinct. Qed.
+Print Assumptions up_ihu_outlets_distinct.
+Theorem up_ihu_valid_iff_outlet : forall sds sq upa subnrow subncol cs ea, 0 < cs -> 0 < subncol -> length sds = subnrow * subncol ->
+  topo sds sq -> complete sds sq ->
+  (forall t, t < length sds -> sd sds t < length sds -> in_d8 t (sd sds t) subncol = true) ->
+  check_cross sds ea subncol cs = true ->
+  (forall t, t < length sds -> sd sds t < length sds -> (0 < nth t upa 0)%Z) ->
+  let '(cds, out, (nrow, ncol)) := up_ihu sds upa subnrow subncol cs ea in
+  no_marker cds (nrow * ncol) ->
+  length cds = nrow * ncol /\ length out = nrow * ncol /\
+  (forall idx0, idx0 < nrow * ncol ->
+     (nth idx0 cds (nrow * ncol) = nrow * ncol <-> nth idx0 out (length sds) = length sds) /\
+     (nth idx0 cds (nrow * ncol) < nrow * ncol <-> nth idx0 out (length sds) < length sds)).
+Proof. exact IhuValid.up_ihu_valid_iff_outlet. Qed.
+Print Assumptions up_ihu_valid_iff_outlet.
+Theorem up_ihu_outlet_cell_valid : forall sds sq upa subnrow subncol cs ea, 0 < cs -> 0 < subncol -> length sds = subnrow * subncol ->
+  topo sds sq -> complete sds sq ->
+  (forall t, t < length sds -> sd sds t < length sds -> in_d8 t (sd sds t) subncol = true) ->
+  check_cross sds ea subncol cs = true ->
+  (forall t, t < length sds -> sd sds t < length sds -> (0 < nth t upa 0)%Z) ->
+  let '(cds, out, (nrow, ncol)) := up_ihu sds upa subnrow subncol cs ea in
+  no_marker cds (nrow * ncol) ->
+  forall idx0, idx0 < nrow * ncol -> nth idx0 out (length sds) < length sds ->
+  sd sds (nth idx0 out (length sds)) < length sds /\
+  sub2idx (nth idx0 out (length sds)) subncol cs ncol < nrow * ncol /\
+  nth (sub2idx (nth idx0 out (length sds)) subncol cs ncol) cds (nrow * ncol) < nrow * ncol /\
+  nth (sub2idx (nth idx0 out (length sds)) subncol cs ncol) out (length sds) < length sds.
+Proof. exact IhuValid.up_ihu_outlet_cell_valid. Qed.
+Print Assumptions up_ihu_outlet_cell_valid.
+Theorem up_ihu_outlet_cell_valid_refuted :
+  exists sds sq upa subnrow subncol cs ea, 0 < cs /\ 0 < subncol /\ length sds = subnrow * subncol /\
+    check_topo sds sq = true /\ check_complete sds sq = true /\ check_d8 sds subncol = true /\
+    check_cross sds ea subncol cs = true /\ check_upa sds upa = false /\
+    up_eam_plus sds upa subnrow subncol cs ea = ([2; 0], [2; 1], (1, 2)) /\
+    up_ihu sds upa subnrow subncol cs ea = ([2; 1], [2; 0], (1, 2)) /\
+    sub2idx (nth 1 [2; 0] 2) subncol cs 2 = 0 /\ nth 0 [2; 1] 2 = 2.
+Proof. exact IhuValid.up_ihu_outlet_cell_valid_refuted. Qed.
+Print Assumptions up_ihu_outlet_cell_valid_refuted.
+
 (* TIE BY TRANSLATION: the non-iterative upscaling kernels of upscale.py regenerated from the source on every run
    (generated/GenUpscale.v, tools/gen_upscale.py: `while True ... break` loops become fuelled Fixpoints with the models' fuel and
    error values, the half-cell offsets of dmm_nextidx exact doubled integers, effective_area an abstract selector) ARE the
